@@ -347,6 +347,42 @@ def decode (s : List Nat) : Option JVal :=
   | some (v, []) => some v
   | _ => none
 
+/-! ### `json.loads` proper: objects become `dict`s -/
+
+/-- `d[k] = v` on an insertion-ordered dict: a key already present keeps its position and takes
+the new value -/
+def dictSet (k : List Nat) (v : JVal) : List (List Nat × JVal) → List (List Nat × JVal)
+  | [] => [(k, v)]
+  | (k', v') :: r => if k' = k then (k', v) :: r else (k', v') :: dictSet k v r
+
+/-- `dict(pairs)` -/
+def dictOf (kvs : List (List Nat × JVal)) : List (List Nat × JVal) :=
+  kvs.foldl (fun d kv => dictSet kv.1 kv.2 d) []
+
+mutual
+/-- every object's pair list turned into a `dict` (duplicate keys collapse, last value wins) -/
+def JVal.norm : JVal → JVal
+  | .null => .null
+  | .bool b => .bool b
+  | .int i => .int i
+  | .num t => .num t
+  | .str s => .str s
+  | .arr xs => .arr (normList xs)
+  | .obj kvs => .obj (dictOf (normMembers kvs))
+def normList : List JVal → List JVal
+  | [] => []
+  | x :: xs => x.norm :: normList xs
+def normMembers : List (List Nat × JVal) → List (List Nat × JVal)
+  | [] => []
+  | (k, v) :: kvs => (k, v.norm) :: normMembers kvs
+end
+
+/-- `json.loads(text)` (no hook): `none` = `JSONDecodeError` -/
+def loads (s : List Nat) : Option JVal :=
+  match decode s with
+  | some v => some v.norm
+  | none => none
+
 /-! ## UTF-8 (what `str.encode("utf-8")` / `bytes.decode("utf-8")` do on scalar values) -/
 
 def utf8enc1 (c : Nat) : List Nat :=
